@@ -15,7 +15,7 @@ def showExceptList : Except Err (List Rat) → String
 
 def asIntDict (v : Json) : Except String (List (String × Int)) := asDict "stoich" asInt v
 
-def h : Handler := fun op j =>
+def hStep : Handler := fun op j =>
   match op with
   | "net_stoich" => do
       let r ← asRxn (← field j "rxn")
@@ -60,5 +60,19 @@ def h : Handler := fun op j =>
         | _ => .error "!bad-arg:stoichs"
       pure (showIntMtx (getCoeffMtx (← getStrList j "substances") st))
   | _ => .error "!bad-op"
+
+/-- `history`: a list of steps, each a complete op on the state current at that step.  The model has no hidden state: a
+    history is replayed by evaluating the pure function of every step; the outputs are joined with " | ". -/
+def h : Handler := fun op j =>
+  match op with
+  | "history" => do
+      let outs ← (← getArr j "steps").mapM fun s => do
+        let sop ← getStr s "op"
+        if sop == "history" then .error "!bad-arg:nested-history" else
+        match hStep sop s with
+        | .ok o => pure o
+        | .error e => pure e
+      pure (" | ".intercalate outs)
+  | _ => hStep op j
 
 def main : IO Unit := run h
